@@ -37,12 +37,12 @@ CFG = {
     "assumptions": [
         "finite coordinates (no NaN/Inf); tolerance finite; coordinate differences zero or within (2^-500, 2^500) (beyond that range distPointToSegment rescales, and findIntersection overflows; the T1 tie of distPointToSegment is stated in range)",
         "simplicity preservation is claimed (property) for open line strings that are simple and in general position (vertices pairwise distinct, no three collinear); "
-        "proved and judged also on the larger class Spec.ColOrdered (vertices distinct, collinear triples in index order along their line); no claim for rings (kernel-checked counter-example)",
+        "proved and judged also on the larger class Spec.ColOrdered (vertices distinct, collinear triples in index order along their line); for rings only the open chain (ring minus its closing vertex) is proved to stay simple, C13_ring_open_chain_simple; the closing chord is never checked by the code (kernel-checked counter-example), and a closed line string is not simple in the property's sense",
     ],
     "rule": "fixed corpus (lengths 0,1,2,3 for every type and tolerance, TestSimplify's curves, closing-segment witness, collinear/duplicate/"
             "negative-tolerance cases) + generated integer-grid random walks, self-avoiding lattice walks, simple lines in general position "
             "(rejection-sampled with exact integer predicates), spirals, combs, star-shaped rings with holes, multi-geometries with empty and "
-            "short members; smooth long runs (arcs, parabolas, flat waves: one output segment replaces 65-500 vertices), size thresholds (63..130, 1023..2049 vertices; 64/65/128/129 members), the same shapes at scales 2^-30..2^30; every input laid out in one flat buffer with spare capacity, first answer re-read after a second call on the operand changed in place; shallow pockets on a ladder of small absolute scales (2^-8..2^-40, 1e-3..1e-7, with/without a lon/lat offset); densified simple lines (collinear runs in order); concurrent callers (class conc: 8 identical + 8 unrelated goroutines, multi-geometries with 32..80 members); lengths 0..3000; tol from {0,1/4,1/2,1.5,3.5,1e6} and a few others. distinct = distinct input line; non-trivial = "
+            "short members; smooth long runs (arcs, parabolas, flat waves: one output segment replaces 65-500 vertices), size thresholds (63..130, 1023..2049 vertices; 64/65/128/129 members), the same shapes at scales 2^-30..2^30; every input laid out in one flat buffer with spare capacity, first answer re-read after a second call on the operand changed in place; shallow pockets on a ladder of small absolute scales (2^-8..2^-40, 1e-3..1e-7, with/without a lon/lat offset); densified simple lines (collinear runs in order); grid shapes at 2^±520..2^±1000 and subnormal scale (class far: rescale branch of distPointToSegment, judged with the real tolerance); pocket with a 33-125 vertex detour between bump and re-entry (class detour, general position judged up to 140 vertices); concurrent callers (class conc: 8 identical + 8 unrelated goroutines, multi-geometries with 32..80 members); lengths 0..3000; tol from {0,1/4,1/2,1.5,3.5,1e6} and a few others. distinct = distinct input line; non-trivial = "
             "class is not skipped/neartie",
     "trivial_class": r"^(skipped.*|.*-neartie|.*-outofrange)$",
     "timeout": {"quick": 900, "thorough": 3000},
